@@ -3,182 +3,13 @@
 //! the callsite) with the value assignment of each case, and logs what a typed recording visitor
 //! was shown, how often every value expression was evaluated and which collector methods ran.
 use serde_json::{json, Value};
-use std::cell::RefCell;
-use std::error::Error;
-use std::fmt;
 use std::sync::{Arc, Mutex};
-use tracing_core::field::{Field, Visit};
 use tracing_core::span::{Attributes, Id, Record};
 use tracing_core::{dispatch, Collect, Dispatch, Event, Interest, LevelFilter, Metadata};
 
 mod corpus;
-
-#[derive(Clone, Copy)]
-pub struct DD(u32);
-impl fmt::Display for DD {
-    fn fmt(&self, f: &mut fmt::Formatter<'_>) -> fmt::Result {
-        write!(f, "D{}", self.0)
-    }
-}
-impl fmt::Debug for DD {
-    fn fmt(&self, f: &mut fmt::Formatter<'_>) -> fmt::Result {
-        write!(f, "G{}", self.0)
-    }
-}
-
-#[derive(Debug)]
-struct ChainErr {
-    msg: String,
-    source: Option<Box<ChainErr>>,
-}
-impl fmt::Display for ChainErr {
-    fn fmt(&self, f: &mut fmt::Formatter<'_>) -> fmt::Result {
-        f.write_str(&self.msg)
-    }
-}
-impl Error for ChainErr {
-    fn source(&self) -> Option<&(dyn Error + 'static)> {
-        self.source.as_ref().map(|e| &**e as &(dyn Error + 'static))
-    }
-}
-fn chain(msgs: &[String]) -> ChainErr {
-    ChainErr { msg: msgs[0].clone(), source: if msgs.len() > 1 { Some(Box::new(chain(&msgs[1..]))) } else { None } }
-}
-
-pub struct Ctx {
-    slots: Vec<Value>,
-    strs: Vec<String>,
-    bytes: Vec<Vec<u8>>,
-    errs: Vec<Option<ChainErr>>,
-    evals: RefCell<Vec<u32>>,
-    parent: tracing::Span,
-    notes: RefCell<Vec<Value>>,
-}
-macro_rules! num_getters {
-    ($($name:ident $nz:ident : $t:ty, $nzt:ty);* $(;)?) => {
-        $(
-            pub fn $name(&self, i: usize) -> $t { self.hit(i); self.slots[i]["v"].as_str().unwrap().parse::<$t>().unwrap() }
-            pub fn $nz(&self, i: usize) -> $nzt { <$nzt>::new(self.$name(i)).unwrap() }
-        )*
-    };
-}
-impl Ctx {
-    fn hit(&self, i: usize) {
-        self.evals.borrow_mut()[i] += 1;
-    }
-    num_getters! {
-        v_u8 v_nz_u8: u8, core::num::NonZeroU8; v_u16 v_nz_u16: u16, core::num::NonZeroU16; v_u32 v_nz_u32: u32, core::num::NonZeroU32;
-        v_u64 v_nz_u64: u64, core::num::NonZeroU64; v_usize v_nz_usize: usize, core::num::NonZeroUsize; v_u128 v_nz_u128: u128, core::num::NonZeroU128;
-        v_i8 v_nz_i8: i8, core::num::NonZeroI8; v_i16 v_nz_i16: i16, core::num::NonZeroI16; v_i32 v_nz_i32: i32, core::num::NonZeroI32;
-        v_i64 v_nz_i64: i64, core::num::NonZeroI64; v_isize v_nz_isize: isize, core::num::NonZeroIsize; v_i128 v_nz_i128: i128, core::num::NonZeroI128;
-    }
-    pub fn v_f64(&self, i: usize) -> f64 {
-        self.hit(i);
-        f64::from_bits(u64::from_str_radix(self.slots[i]["v"].as_str().unwrap(), 16).unwrap())
-    }
-    pub fn v_f32(&self, i: usize) -> f32 {
-        self.hit(i);
-        f32::from_bits(u32::from_str_radix(self.slots[i]["v"].as_str().unwrap(), 16).unwrap())
-    }
-    pub fn v_bool(&self, i: usize) -> bool {
-        self.hit(i);
-        self.slots[i]["v"].as_str().unwrap() == "true"
-    }
-    pub fn v_str(&self, i: usize) -> &str {
-        self.hit(i);
-        &self.strs[i]
-    }
-    pub fn v_string(&self, i: usize) -> String {
-        self.hit(i);
-        self.strs[i].clone()
-    }
-    pub fn v_box_str(&self, i: usize) -> Box<str> {
-        self.hit(i);
-        self.strs[i].clone().into_boxed_str()
-    }
-    pub fn v_bytes(&self, i: usize) -> &[u8] {
-        self.hit(i);
-        &self.bytes[i]
-    }
-    pub fn v_dd(&self, i: usize) -> DD {
-        self.hit(i);
-        DD(self.slots[i]["v"].as_str().unwrap().parse().unwrap())
-    }
-    pub fn v_err(&self, i: usize) -> &(dyn Error + 'static) {
-        self.hit(i);
-        self.errs[i].as_ref().unwrap()
-    }
-    pub fn v_err_send(&self, i: usize) -> &(dyn Error + Send + 'static) {
-        self.hit(i);
-        self.errs[i].as_ref().unwrap()
-    }
-    pub fn v_err_sync(&self, i: usize) -> &(dyn Error + Sync + 'static) {
-        self.hit(i);
-        self.errs[i].as_ref().unwrap()
-    }
-    pub fn v_err_send_sync(&self, i: usize) -> &(dyn Error + Send + Sync + 'static) {
-        self.hit(i);
-        self.errs[i].as_ref().unwrap()
-    }
-    pub fn v_box_err(&self, i: usize) -> Box<dyn Error + Send + Sync + 'static> {
-        self.hit(i);
-        let msgs: Vec<String> = self.slots[i]["chain"].as_array().unwrap().iter().map(|m| m.as_str().unwrap().to_string()).collect();
-        Box::new(chain(&msgs))
-    }
-    pub fn parent(&self) -> &tracing::Span {
-        &self.parent
-    }
-    pub fn span_made(&self, sp: &tracing::Span) {
-        self.notes.borrow_mut().push(json!({"span_disabled": sp.is_disabled()}));
-    }
-    pub fn enabled_result(&self, r: bool) {
-        self.notes.borrow_mut().push(json!({"enabled_result": r}));
-    }
-}
-
-fn hexs(b: &[u8]) -> String {
-    b.iter().map(|x| format!("{:02x}", x)).collect()
-}
-
-struct V<'a>(&'a mut Vec<Value>);
-impl Visit for V<'_> {
-    fn record_f64(&mut self, f: &Field, v: f64) {
-        self.0.push(json!({"name": f.name(), "m": "f64", "v": format!("{:016x}", v.to_bits())}));
-    }
-    fn record_i64(&mut self, f: &Field, v: i64) {
-        self.0.push(json!({"name": f.name(), "m": "i64", "v": v.to_string()}));
-    }
-    fn record_u64(&mut self, f: &Field, v: u64) {
-        self.0.push(json!({"name": f.name(), "m": "u64", "v": v.to_string()}));
-    }
-    fn record_i128(&mut self, f: &Field, v: i128) {
-        self.0.push(json!({"name": f.name(), "m": "i128", "v": v.to_string()}));
-    }
-    fn record_u128(&mut self, f: &Field, v: u128) {
-        self.0.push(json!({"name": f.name(), "m": "u128", "v": v.to_string()}));
-    }
-    fn record_bool(&mut self, f: &Field, v: bool) {
-        self.0.push(json!({"name": f.name(), "m": "bool", "v": v.to_string()}));
-    }
-    fn record_str(&mut self, f: &Field, v: &str) {
-        self.0.push(json!({"name": f.name(), "m": "str", "v": hexs(v.as_bytes())}));
-    }
-    fn record_bytes(&mut self, f: &Field, v: &[u8]) {
-        self.0.push(json!({"name": f.name(), "m": "bytes", "v": hexs(v)}));
-    }
-    fn record_error(&mut self, f: &Field, v: &(dyn Error + 'static)) {
-        let mut parts = vec![v.to_string()];
-        let mut cur = v.source();
-        while let Some(e) = cur {
-            parts.push(e.to_string());
-            cur = e.source();
-        }
-        self.0.push(json!({"name": f.name(), "m": "error", "v": hexs(parts.join("|").as_bytes())}));
-    }
-    fn record_debug(&mut self, f: &Field, v: &dyn fmt::Debug) {
-        self.0.push(json!({"name": f.name(), "m": "debug", "v": hexs(format!("{:?}", v).as_bytes())}));
-    }
-}
+mod ctx;
+pub use ctx::{Ctx, V};
 
 /// mode: "accept" | "never" | "dynamic" | "cap" (hint one below the callsite's level)
 struct Rec {
@@ -270,11 +101,7 @@ fn main() {
         let d = Dispatch::new(Rec { mode, cap: c["cap"].as_u64().unwrap_or(0), log: log.clone() });
         let r = vh_common::catch(|| {
             dispatch::with_default(&d, || {
-                let strs = slots.iter().map(|s| String::from_utf8(unhex(s["str"].as_str().unwrap_or(""))).unwrap()).collect();
-                let bytes = slots.iter().map(|s| unhex(s["bytes"].as_str().unwrap_or(""))).collect();
-                let errs = slots.iter().map(|s| s["chain"].as_array().map(|a| chain(&a.iter().map(|m| m.as_str().unwrap().to_string()).collect::<Vec<_>>()))).collect();
-                let ctx = Ctx { evals: RefCell::new(vec![0; slots.len()]), slots: slots.clone(), strs, bytes, errs,
-                    parent: tracing::span!(tracing::Level::ERROR, "vh_parent"), notes: RefCell::new(vec![]) };
+                let ctx = Ctx::from_slots(&slots, tracing::span!(tracing::Level::ERROR, "vh_parent"));
                 log.lock().unwrap().clear();
                 corpus::SITES[cs](&ctx);
                 let ev = ctx.evals.borrow().clone();
@@ -290,6 +117,3 @@ fn main() {
     }
 }
 
-fn unhex(s: &str) -> Vec<u8> {
-    (0..s.len() / 2).map(|i| u8::from_str_radix(&s[2 * i..2 * i + 2], 16).unwrap()).collect()
-}
